@@ -15,7 +15,18 @@ SHAPES = ["direct", "elementwise", "merge_last", "merge_first", "flat_map_inner"
 # shapes in which whatever must run for termination is queued on the trampoline behind the endless producer (family b of the known finding)
 STARVING = ["flat_map_outer", "concat_map_outer", "merge_all_outer", "switch_map_outer", "combine_latest_first", "zip_first", "take_until_late_trigger",
             "observe_on_current_thread", "replay_ref_count"]
-SCHEDULERS = ["default", "singleton", "fresh_current", "immediate"]
+SCHEDULERS = ["default", "singleton", "singleton_from_other_thread", "fresh_current", "immediate"]
+
+
+def _singleton_from_other_thread():
+    """CurrentThreadScheduler.singleton() obtained on another thread (a module-level scheduler, say) and used here: documented to
+    behave as if it had been obtained on the subscribing thread"""
+    import threading
+    box = []
+    t = threading.Thread(target=lambda: box.append(CurrentThreadScheduler.singleton()))
+    t.start()
+    t.join()
+    return box[0]
 BUDGET = 400
 
 
@@ -174,7 +185,8 @@ class Prop:
         out.probes["shape:" + sc["shape"]] += 1
         term = "take_until" if sc["shape"] == "take_until_late_trigger" else sc["term"]
         obs = terminate(shape(sc["shape"], endless(sc["producer"], c)), term, sc["n"])
-        sch = {"default": None, "singleton": CurrentThreadScheduler.singleton(), "fresh_current": CurrentThreadScheduler(), "immediate": ImmediateScheduler()}[sc["scheduler"]]
+        sch = {"default": lambda: None, "singleton": CurrentThreadScheduler.singleton, "singleton_from_other_thread": _singleton_from_other_thread,
+               "fresh_current": CurrentThreadScheduler, "immediate": ImmediateScheduler}[sc["scheduler"]]()
         if sc.get("prelude"):
             out.probes["prelude_abandoned_pipeline"] += 1
             desc += " [after a pipeline on the same thread whose observer raised at its element %d]" % sc["prelude"]
